@@ -15,7 +15,7 @@ ResetVars(ev) ==
     /\ slot' = [i \in 1 .. MaxSlot |-> NoSlot] /\ named' = 0 /\ supply' = ev.supply /\ ret' = <<>> /\ pend' = <<>>
     /\ u' = [c \in Conns |-> [pc |-> "u_start", s |-> 0, reg |-> FALSE, open |-> FALSE]]
     /\ k' = [c \in Conns |-> [pending |-> 0, sent |-> 0, peerClosed |-> FALSE]]
-    /\ P' = [pc |-> "p_wait", batch |-> <<>>, i |-> 0, hups |-> <<>>]
+    /\ P' = [pc |-> "p_wait", msec |-> -1, batch |-> <<>>, i |-> 0, hups |-> <<>>]
     /\ H' = <<>> /\ got' = [c \in Conns |-> 0] /\ torn' = {} /\ bad' = {}
 
 Code(o) == CASE o = "A" -> 1 [] o = "B" -> 2 [] o = "G" -> 3 [] OTHER -> 0
